@@ -24,6 +24,9 @@ func init() {
 		"fmt.Sprint":       inOpaqueString,
 		"fmt.Sprintln":     inOpaqueString,
 		"strings.IndexByte": inStringsIndexByte,
+		// strings are immutable values in the engine: a clone is the string itself
+		"strings.Clone":                func(fr *frame, args []Value) Value { return args[0] },
+		"internal/stringslite.Clone":   func(fr *frame, args []Value) Value { return args[0] },
 		"bytes.IndexByte":  inBytesIndexByte,
 		"sort.Slice":       inSortSlice,
 
